@@ -140,22 +140,63 @@ func (r *req) snap() state {
 // nodeTracer is the bitswap tracer of one node: it records which blocks the
 // node received from the network (whether or not any request took them).
 type nodeTracer struct {
-	mu   sync.Mutex
-	recv map[string]int
+	clock     *atomic.Int64
+	mu        sync.Mutex
+	recv      map[string]int
+	firstRecv map[string]int64 // logical time of the first arrival of the block
+	w         *world
+	// what the OTHER nodes saw arriving from this node (filled by their tracers)
+	wantsSeen   map[string]int // want entries for the CID that reached some peer
+	cancelsSeen map[string]int // cancel entries for the CID that reached some peer
 }
 
-func (t *nodeTracer) MessageReceived(_ peer.ID, m bsmsg.BitSwapMessage) {
+func (t *nodeTracer) MessageReceived(from peer.ID, m bsmsg.BitSwapMessage) {
+	if wl := m.Wantlist(); len(wl) > 0 {
+		if st := t.w.tracerOf(from); st != nil {
+			st.mu.Lock()
+			for _, e := range wl {
+				if e.Cancel {
+					st.cancelsSeen[e.Cid.KeyString()]++
+				} else {
+					st.wantsSeen[e.Cid.KeyString()]++
+				}
+			}
+			st.mu.Unlock()
+		}
+	}
 	bl := m.Blocks()
 	if len(bl) == 0 {
 		return
 	}
+	now := t.clock.Add(1)
 	t.mu.Lock()
 	for _, b := range bl {
-		t.recv[b.Cid().KeyString()]++
+		ks := b.Cid().KeyString()
+		t.recv[ks]++
+		if _, ok := t.firstRecv[ks]; !ok {
+			t.firstRecv[ks] = now
+		}
 	}
 	t.mu.Unlock()
 }
-func (t *nodeTracer) MessageSent(peer.ID, bsmsg.BitSwapMessage) {}
+
+func (t *nodeTracer) MessageSent(peer.ID, bsmsg.BitSwapMessage) {} // only the server side reports sends
+
+// wire returns what the peers saw from this node for c: want entries, cancel entries.
+func (t *nodeTracer) wire(c cid.Cid) (int, int) {
+	t.mu.Lock()
+	defer t.mu.Unlock()
+	return t.wantsSeen[c.KeyString()], t.cancelsSeen[c.KeyString()]
+}
+
+func (w *world) tracerOf(p peer.ID) *nodeTracer {
+	w.peersMu.RLock()
+	defer w.peersMu.RUnlock()
+	if i, ok := w.peerIdx[p]; ok {
+		return w.tracers[i]
+	}
+	return nil
+}
 
 func (t *nodeTracer) received(c cid.Cid) int {
 	t.mu.Lock()
@@ -164,6 +205,8 @@ func (t *nodeTracer) received(c cid.Cid) int {
 }
 
 type world struct {
+	peersMu sync.RWMutex
+	peerIdx map[peer.ID]int
 	k       *vlib.Case
 	tracers []*nodeTracer
 	insts   []testinstance.Instance
@@ -410,8 +453,14 @@ func (w *world) execute(n int, d delay.D, psd time.Duration) {
 		if err != nil {
 			panic(err)
 		}
-		tr := &nodeTracer{recv: map[string]int{}}
+		tr := &nodeTracer{clock: &w.clock, w: w, recv: map[string]int{}, firstRecv: map[string]int64{}, wantsSeen: map[string]int{}, cancelsSeen: map[string]int{}}
+		w.peersMu.Lock()
+		if w.peerIdx == nil {
+			w.peerIdx = map[peer.ID]int{}
+		}
+		w.peerIdx[id.ID()] = i
 		w.tracers = append(w.tracers, tr)
+		w.peersMu.Unlock()
 		w.insts = append(w.insts, testinstance.NewInstance(nodesCtx, vnet, router.Client(id), id, nil,
 			[]bitswap.Option{bitswap.ProviderSearchDelay(psd), bitswap.WithTracer(tr)}))
 	}
@@ -479,9 +528,9 @@ func (w *world) execute(n int, d delay.D, psd time.Duration) {
 	w.monitorRequests()
 	wg.Wait()
 	w.checkSafetyAndDelivery()
-	reported := w.checkCleanup("sessions-open", nil)
+	reported := w.checkCleanup("sessions-open", nil, closeSessions)
 	closeSessions()
-	w.checkCleanup("sessions-closed", reported)
+	w.checkCleanup("sessions-closed", reported, nil)
 	w.finishEvidence()
 }
 
@@ -709,6 +758,15 @@ func (w *world) reportUndelivered(q *req, why string) {
 			}
 		}
 	}
+	if len(miss) == 0 {
+		// everything obtainable was delivered, yet the channel never closed
+		class = "never-closes/" + q.kind
+	}
+	rc := w.recvCounts(q.node, miss)
+	allArrived := len(rc) > 0
+	for _, n := range rc {
+		allArrived = allArrived && n > 0
+	}
 	switch {
 	case len(trig) > 0:
 		// a sibling fetch of the same session wanting the key was cancelled
@@ -716,6 +774,10 @@ func (w *world) reportUndelivered(q *req, why string) {
 	case len(trigRe) > 0:
 		// a sibling fetch of the same session received the key; this one asked again
 		class = "not-delivered/same-session-rerequest"
+	case allArrived && w.missingAllDropped():
+		// every missing block reached this node from the network (tracer), yet
+		// the open request did not get it and the node no longer wants it
+		class = "not-delivered/arrived-unpublished"
 	}
 	inst := w.insts[q.node].Exchange
 	w.k.Fail(class, "every requested block held by another connected node is delivered (stable state)",
@@ -818,7 +880,7 @@ func (w *world) checkSafetyAndDelivery() {
 // checkCleanup samples the want-lists of all requester nodes until none of the
 // requested CIDs is left, or the leftover has been unchanged for cleanupStable
 // (>= 5 samples). It returns the set of reported leftovers ("node/cid").
-func (w *world) checkCleanup(phase string, already map[string]bool) map[string]bool {
+func (w *world) checkCleanup(phase string, already map[string]bool, closeSessions func()) map[string]bool {
 	k := w.k
 	reqByNode := map[int]map[string]bool{}
 	for _, q := range w.reqs {
@@ -876,6 +938,37 @@ func (w *world) checkCleanup(phase string, already map[string]bool) map[string]b
 	if last == "" {
 		return out
 	}
+	// Discriminating observation: does the leftover go away when the node's
+	// sessions are closed (a session still holds interest in it) or is it an
+	// orphan that nothing will ever cancel? Orphans never disappear; a held
+	// want is released within milliseconds of the close (polled for <= 1 s).
+	released := map[string]bool{}
+	if closeSessions != nil {
+		closeSessions()
+		for i := 0; i < 100; i++ {
+			_, now := leftover()
+			still := map[string]bool{}
+			for node, cs := range now {
+				for _, c := range cs {
+					still[fmt.Sprint(node, "/", c.KeyString())] = true
+				}
+			}
+			n := 0
+			for node, cs := range m {
+				for _, c := range cs {
+					kk := fmt.Sprint(node, "/", c.KeyString())
+					released[kk] = !still[kk]
+					if still[kk] {
+						n++
+					}
+				}
+			}
+			if n == 0 {
+				break
+			}
+			time.Sleep(sampleEvery)
+		}
+	}
 	// classify every leftover CID from the recorded history
 	for node, cs := range m {
 		inst := w.insts[node].Exchange
@@ -917,12 +1010,17 @@ func (w *world) checkCleanup(phase string, already map[string]bool) map[string]b
 			}
 			// class = clause + features of the recorded history of this CID on this node
 			nrecv := w.tracers[node].received(c)
+			nWant, nCancel := w.tracers[node].wire(c)
 			class := "want-not-cleared/other"
 			switch {
+			case nrecv > 0 && released[fmt.Sprint(node, "/", c.KeyString())]:
+				// the block reached this node, yet a session kept wanting it until
+				// the session itself was closed
+				class = "want-not-cleared/received-but-held-until-session-close"
 			case nrecv > 0:
-				// the block itself reached this node (the tracer saw it), with or
-				// without a request still listening for it
-				class = "want-not-cleared/block-received"
+				// the block reached this node (tracer) and the want is an orphan:
+				// it survives the end of every request and session of the node
+				class = "want-not-cleared/orphan-after-receipt"
 			case deliveredSomewhere:
 				class = "want-not-cleared/delivered-locally"
 			case undeliveredCancelled:
@@ -943,7 +1041,7 @@ func (w *world) checkCleanup(phase string, already map[string]bool) map[string]b
 			feats = append(feats, kind)
 			k.Fail(class, "after completion or cancel the requester's want-list holds none of the requested CIDs (stable state, phase "+phase+")",
 				fmt.Sprintf("node %d want-list without %s", node, w.nameOf(c)),
-				fmt.Sprintf("%s still listed as %s, unchanged over %d samples / %s; the node received this block %d time(s) from the network; requests for it on node %d: %s; full wantlist=%s", w.nameOf(c), strings.Join(feats, ","), samples, time.Since(lastChange).Round(time.Millisecond), nrecv, node, strings.Join(hist, " "), w.namesOf(inst.GetWantlist())))
+				fmt.Sprintf("%s still listed as %s, unchanged over %d samples / %s; the node received this block %d time(s) from the network (its peers saw %d want and %d cancel entries for it from this node; gone after closing the sessions: %v); requests for it on node %d: %s; full wantlist=%s", w.nameOf(c), strings.Join(feats, ","), samples, time.Since(lastChange).Round(time.Millisecond), nrecv, nWant, nCancel, released[fmt.Sprint(node, "/", c.KeyString())], node, strings.Join(hist, " "), w.namesOf(inst.GetWantlist())))
 		}
 	}
 	return out
